@@ -425,10 +425,9 @@ def _crosses_end(c, blocks):
     return last is not None and last[0] + last[1] > end
 
 def classify_terminator(c, blocks):
-    """C14-range-ends-inside-instruction (no code map): the last instruction of the range crosses END, and the directive
-    at/after END is not the plain 'i END' terminator."""
-    if _crosses_end(c, blocks):
-        return 'C14-range-ends-inside-instruction'
+    """No listed finding covers a wrong or missing terminating directive any more: the 'b END' face of
+    C14-range-ends-inside-instruction was repaired by f283fa7, and with the predicate kept the check absorbed a seeded change
+    that brought it back (round 16). A terminator problem is always reported."""
     return None
 
 def _waddr(tok):
